@@ -18,7 +18,7 @@ TSample == /\ IsEvent("Sample")
            /\ round' = round + 1 /\ pos' = pos + Cohort
            /\ Remember(round, Ev.out)
            /\ keysOf' = Put(keysOf, round, ToSet(Ev.keys))
-           /\ (kind = "get" => Ev.no_repeat) /\ Ev.ids_from_dataset /\ Ev.dataset_matches_id /\ Ev.cohort_size_ok
+           /\ (kind = "get" => Ev.no_repeat) /\ Ev.ids_from_dataset /\ Ev.dataset_matches_id /\ Ev.cohort_size_ok /\ Ev.id_types_ok
 TSetRound == IsEvent("SetRound") /\ kind = "get" /\ round' = Ev.r
              /\ UNCHANGED <<kind, calls, pos, memo, bad, hist, keysOf>>
 TNew == IsEvent("New") /\ round' = Ev.r /\ calls' = 0 /\ pos' = Ev.r * Cohort
